@@ -2,6 +2,7 @@ import Pmn.Model.Grid
 import Pmn.Model.Fmt
 import Driver.Proto
 import Driver.OpsTopo
+import Driver.OpsCkt
 open Driver
 
 def opGrid (args : List String) : String :=
@@ -39,6 +40,7 @@ def dispatch (line : String) : String :=
   | "grid" :: r => opGrid r
   | "fmt" :: r => opFmt r
   | "topo" :: r => opTopo r
+  | "ckt" :: r => opCkt r
   | _ => "bad-op"
 
 partial def loop (h : IO.FS.Stream) (out : IO.FS.Stream) : IO Unit := do
